@@ -1,10 +1,14 @@
 """C09 — counterfactual transportability (ctfTRu / ctfTR, Correa, Lee & Bareinboim 2022, Algorithms 2-4).
 
-Correspondence: the input validators (`_validate_transport_unconditional_counterfactual_query_input`,
-`_validate_transport_conditional_counterfactual_query_input`) and the district transport step (Algorithm 4's choice of a
-domain: no policy variable and no selection node on the district) are compared with the Lean model
-(Y0.Model.CtfTr) on every case; Algorithms 2/3 are modelled as a composition that is parametric in SIMPLIFY, the
-ctf-factor factorisation and Tian's IDENTIFY (owned by the `ctf` and `tian` families).
+Correspondence: the complete procedures are compared with the Lean model (Y0.Model.CtfTr) on every case: the verdict of
+the input validators (error category), and for accepted inputs FAIL / Zero / the answer of Algorithm 2 (`ctftr
+uncond`: expression and simplified event, plus the flag `CtfTr.ctfTRuInClass` = "inside the decidable hypotheses of the
+proved value clause ctfTRu_sound_partial": an in-class case whose value the exact oracle rejects is a disagreement,
+whatever known-finding class its signature falls in) resp. Algorithm 3 (`ctftr cond`: the derivation of D* from the ancestral
+components, Algorithm 2 on D* with its own validator, the Fraction of line 4, the returned event, the five final checks;
+crashes of the known findings included, as category `internal`).  Expressions are compared structurally, then by exact
+value on the case's model family; events as multisets.  The models of SIMPLIFY, the ctf-factor factorisation and Tian's
+IDENTIFY are the `ctf` and `tian` families'.
 
 Oracle (from the property statement, independent of y0 and of the model; harness/oracles/family_eval.py):
   (t) trichotomy: an input that passes the procedure's own validation is answered (expression + event) or refused
@@ -19,6 +23,16 @@ Oracle (from the property statement, independent of y0 and of the model; harness
       functional SCM by enumeration of the noise space.  Values: `-V` is the base value of V, `+V` another value.
       A variable that carries two different values in the returned event makes "the returned event's values" ambiguous:
       the check then fails only if NO choice of value gives the right number (sound, lenient).
+      A name the expression depends on that the returned event does NOT bind is read at the value the QUERY gives it as
+      a subscript (ctfTR returns base variables only, so the literal x of Y_x is known from the query alone); a name that
+      is bound by neither (an event variable left out of the returned event, a variable foreign to the query) must not
+      matter: the value has to be right for EVERY value of it (third round; catches a returned event that omits the
+      conditions);
+  (e) event (ctfTRu; third round): the returned event is the SIMPLIFIED query event - every variable in minimal form
+      ||Y_x|| (harness's own ancestor code), no repeated item, a valueless copy of a valued variable absorbed; not judged
+      on queries with a self-intervened variable (C19's open simplify-reflexive findings);
+  (t') a validator may reject with TypeError / ValueError / NotImplementedError only: any other exception raised by the
+      validator itself is a failure.
 """
 from __future__ import annotations
 
@@ -44,21 +58,64 @@ RULE = ("target ADMGs with 2-5 nodes x 1-2 domains (selection diagram = the targ
         "joined by a directed path, e.g. X1->X2->W->Y, X1->Y, all event variables in the same world, 1-3 outcomes that are "
         "ancestors of one another, 1-2 domains; outside every known-finding class, so every answer is judged by the value "
         "oracle); a stream of source domains whose graph lacks a bidirected edge of the target (trichotomy clause only); "
-        "the worked examples of Correa et al. 2022 as corpus; "
-        "plus a malformed stream for every class of the validators. A case is non-trivial when validation passes, the graph "
+        "third round (measured against the mutation table tools/c09_mutants.py): a TWO-DOMAIN stream (single-world events with "
+        ">= 2 ctf-factors, each of two chosen factors transportable from exactly one of two domains - selection node or policy, "
+        "cut or not, on the other domain's copy of the district -, further marks only outside the ancestral set or inside the "
+        "blocked district, 1-5 bidirected edges so that districts of size >= 2, districts strictly inside their domain-graph "
+        "district and districts with outside ancestors are frequent, independent topological orders per domain); a REDUNDANT "
+        "stream (events SIMPLIFY changes: repeated item, valueless copy of a valued variable, causally irrelevant subscript); "
+        "an INCONSISTENT-FACTOR stream (Definition 4.1 (i) / (ii) inside one district: FAIL is the only right answer); source "
+        "mechanisms at marked variables are redrawn until every kernel row differs from the target's; "
+        "the worked examples of Correa et al. 2022 and the minimal witnesses of the mutation table as corpus; "
+        "plus a malformed stream for every class of the validators (event / outcome / condition outside the graph, order with "
+        "a wrong edge or a missing vertex, ...). A case is non-trivial when validation passes, the graph "
         "has >=3 nodes and some event variable has a subscript.")
 ASSUMPTIONS = [
-    "ctfTRu_sound / ctfTR_sound (value clause) are OPEN and false of the current code on the open findings' inputs: "
-    "Props/C09 proves the composition skeleton only; the clause rests on the correspondence + exact functional-SCM oracle",
-    "the models of SIMPLIFY, counterfactual ancestors, ctf-factors and IDENTIFY are the `ctf` / `tian` families' (C19, C17); "
-    "Algorithm 3's derivation of D* and its line 4 are parameters of the model (only its validator and its call of "
-    "Algorithm 2 are modelled); the conditional procedure is covered by the oracle on the real code",
+    "value clause, Algorithm 2: PROVED (Props/C09Sound ctfTRu_sound_partial; no hypothesis about any part of the algorithm) "
+    "for validated inputs built by the public wrapper without a self-intervened variable whose simplified event has no "
+    "valueless item and is in the decidable class CtfTr.ctfSoundClass (readable, not multi-world / literal-bound / "
+    "outcome-parent-value (C19) / starred-literal-bound), for every family of functional SCMs compatible with the declared "
+    "domains (Spec/CtfFamilySpec: positive discrete models, inert selection nodes, a source domain differs from the target "
+    "only in the mechanisms at the children of its selection nodes and its policy variables; a differing noise distribution "
+    "is represented by extra exogenous variables the target does not read; the declared distribution of each domain is the "
+    "joint P^k(V) of its regular variables) and every valuation that carries the returned event's values (Ctf.EventReading; "
+    "exists iff no name receives two values: ctf_reading_exists); with valueless items read as free variables: "
+    "ctfTRu_sound_free_partial. FALSE outside the class (open findings value:two_values / multi_world / literal_bound / "
+    "reflexive). The theorem is TIED to the oracle on every run: the driver reports CtfTr.ctfTRuInClass for every answered "
+    "unconditional case, and an in-class case on which the exact oracle rejects the value is a disagreement, whatever "
+    "known-finding class its signature falls in (seed 0: 4814 of 6728 answered unconditional cases are in the class)",
+    "value clause, Algorithm 3: ctfTR_sound is OPEN; ctfTR_sound_of_parts reduces it (normalisation on top of ctfTRu_sound_fun) "
+    "to two named identities about J(tau) = P*_tau(D* = tau): sum over V(D*) minus (V(Y*) u V(X*)) of J times c = P*(y*, x*) and "
+    "sum over V(D*) minus V(X*) of J times c = P*(x*), c the probability of the conditions whose ancestral component holds no "
+    "outcome (marginalisation of the valueless ancestors + independence across ancestral components, Correa et al. Lemma 3); "
+    "false of the current code on the open findings cond:value:outcome-lookup-miss / outcome-also-condition; decided on "
+    "every run by the correspondence with the complete model of Algorithm 3 + the exact oracle",
+    "reading of a valueless item of the QUERY: the oracle reads it as 'equal to its base value' (the item stays a free variable "
+    "of the answer), C19 and the Lean theorems read it as 'no constraint'; the two agree when the query has no valueless "
+    "item (the class of the tie); a valueless copy absorbed by a valued copy of the same variable is attributed to "
+    "value:two_values by the oracle",
+    "the models of SIMPLIFY, counterfactual ancestors, ancestral components, ctf-factors and IDENTIFY are the `ctf` / `tian` "
+    "families' (C19, C17); Algorithm 3 is modelled completely (CtfTr.ctfTR: line2C, line4C, finalChecks) and compared with "
+    "conditional_cft on every conditional case (verdict, expression, returned event)",
+    "Python sets in Algorithm 3: the order of the derived event D* (iteration over a set of variables / of values) is a "
+    "canonical one in the model; it reaches the result only as a permutation (events are compared as multisets, Product.safe "
+    "and Sum ranges sort) and the VERDICT in two places: (a) Algorithm 2's transport loop stops at the first FAIL, so FAIL vs "
+    "exception can depend on the order of the ctf-factors (only with domain graphs that lack a bidirected edge of the target: "
+    "stream dropped_bi, not compared); (b) the dict of the final checks keyed by base name keeps the LAST of two entries of a "
+    "vertex named in two worlds, once with and once without a value (CtfTr.finalChecksOrderSensitive; the driver reports it "
+    "and then only the validator verdict is compared; never observed: such runs end in FAIL before line 4)",
     "ctf_no_internal_error: false of the current code on four crash classes (known findings); PROVED for the unconditional "
     "procedure outside them (ctfTRu_no_internal_error_partial: validated input, no self-intervened variable together with a "
     "valueless variable, plain event variables as built by the public wrapper, every domain graph keeps the target's "
     "bidirected edges between non-policy variables and has no bidirected edge at a selection node => answer or FAIL, no "
-    "error); OPEN for Algorithm 3 (its derivation of D* and line 4 are parameters of the model); the oracle reports "
-    "every exception after validation",
+    "error); for Algorithm 3 PROVED outside its crash classes (ctfTR_no_internal_error_partial: validated input, plain query "
+    "variables, DomainsAgree, and "
+    "three decidable predicates on the input: OutcomesFound = every outcome is found in the ancestral components under its own "
+    "name, DstarOneWorld = D* names each vertex in one world, OutcomeNotCondition = no outcome shares its vertex with a "
+    "condition; the facts about Algorithm 2's expression Q - never Zero(), only graph vertices and variables of the domain "
+    "distributions - are proved: ctfTR_q_good). FALSE without OutcomesFound (known findings; Lean witness a3Miss); OPEN "
+    "whether DstarOneWorld / OutcomeNotCondition are needed (no exception was ever observed with OutcomesFound true); the "
+    "oracle reports every exception after validation",
     "failures on inputs with the syntactic signature of an open finding AND its kind of outcome (wrong value / wrong zero / "
     "exception class at a named check) are attributed to that finding by class key (17 keys; signature computed on the "
     "minimised query with the harness's own graph code); a different defect that only shows on such inputs with the same "
@@ -66,9 +123,15 @@ ASSUMPTIONS = [
     "oracle model class: discrete variables, positive rational parameters, independent root latents per bidirected edge, one "
     "private uniform noise per variable; policies are fresh kernels at the policy variables (same parents, or none when cut)",
     "a returned event that gives one variable two values (or uses a variable both as subscript value and as event value with "
-    "different stars) is evaluated under every choice; the check reports only when no choice is right",
+    "different stars) is evaluated under every choice; the check reports only when no choice is right; a name bound by "
+    "neither the returned event nor a subscript of the query is read universally (the value must be right for each of its "
+    "values); ctfTR's returned event carries base variables only, so the literal subscripts are read from the query",
+    "FAIL and validation errors are never judged for necessity: a change that only refuses or rejects MORE inputs (selection "
+    "nodes tested on all vertices, Zero replaced by FAIL, a larger D*, a stricter validator) keeps C09 as stated and is seen "
+    "by the correspondence only (tools/c09_mutants.py lists these as `equiv`); inputs with an invalid topological order are "
+    "outside the quantifier, so a validator that stops checking the order is not detected",
 ]
-LEANCHECK_MODULES = ["Y0.Model.CtfTr", "Y0.Props.C09"]
+LEANCHECK_MODULES = ["Y0.Model.CtfTr", "Y0.Props.C09", "Y0.Props.C09Sound"]
 EXHAUSTIVE = {"quick": False, "thorough": False}
 ESCALATED_TIER = "escalated"
 
@@ -271,6 +334,159 @@ def _marks_only_domains(rng, nodes):
     return doms
 
 
+# ---- structured streams (third round): inputs on which a one-line slip in Algorithms 2-4 changes the VALUE ---------------
+# (tools/c09_mutants.py is the mutation table these streams are measured against)
+
+def _event_factors(g, event):
+    """districts of G[An(event)] (the vertex sets of the ctf-factors of the query) by the harness's own graph code"""
+    di = [tuple(e) for e in g["di"]]
+    names = set()
+    for v in event:
+        n, S = _min_var(di, v)
+        names |= {a for a, _ in _ctf_ancestors(di, n, S)}
+    bi = [tuple(e) for e in g["bi"] if e[0] in names and e[1] in names]
+    return names, FE.districts(sorted(names), bi)
+
+
+def _single_world_event(rng, g, n_x=None):
+    nodes = G.all_nodes(g)
+    di = [tuple(e) for e in g["di"]]
+    n_x = rng.choice([0, 1, 1, 1, 2]) if n_x is None else n_x
+    xs = rng.sample(nodes, min(n_x, len(nodes) - 1))
+    rest = [v for v in nodes if v not in xs]
+    desc = [v for v in rest if set(xs) & FE.ancestors(di, {v})]
+    pool = desc if desc and rng.random() < 0.8 else rest
+    outs = rng.sample(pool, min(len(pool), rng.choice([1, 1, 2, 2, 3])))
+    ivs = [(x, "m" if rng.random() < 0.7 else "p") for x in xs]
+    return [cv(v, "m" if rng.random() < 0.65 else "p", ivs) for v in outs], xs
+
+
+def _mark(rng, d, v):
+    """selection node or policy (cut from its parents or not) on v in the domain record d"""
+    if rng.random() < 0.55:
+        d["tmarks"].append(v)
+    else:
+        d["policy"].append(v)
+        if rng.random() < 0.5:
+            d["cut"].append(v)
+
+
+def _two_domain_case(rng):
+    """two source domains and a query with >= 2 ctf-factors such that EACH of two chosen factors can be transported from
+    exactly one domain (a selection node or a policy sits on the other domain's copy of that district), the remaining marks
+    being on variables outside the ancestral set (intervened variables, descendants) or inside the already blocked
+    district; graphs with several bidirected edges, so that districts of size >= 2, districts whose district in the full
+    domain graph is strictly larger (a bidirected edge to a non-ancestor) and districts with ancestors outside them are
+    frequent; the domains' topological orders are drawn independently.  Single-world events over distinct variables:
+    outside every known-finding class, the value oracle judges every answer - a wrong usability test, a wrong choice of
+    domain / graph / distribution / order changes the value."""
+    for _try in range(200):
+        g = G.rand_graph(rng, 4, 5, acyclic=True, pd=rng.choice([0.4, 0.6]), pb=rng.choice([0.25, 0.4, 0.5]))
+        nodes = G.all_nodes(g)
+        if len(nodes) < 4 or not 1 <= len(g["bi"]) <= 5:
+            continue
+        ev, xs = _single_world_event(rng, g)
+        names, ds = _event_factors(g, ev)
+        if len(ds) >= 2 or _try > 150:
+            break
+    ds = sorted(ds, key=sorted)
+    d1, d2 = (rng.sample(ds, 2) if len(ds) >= 2 else (ds[0], frozenset()))
+    outside = [v for v in nodes if v not in names]
+    doms = []
+    for k, (blocked, _free) in enumerate([(d1, d2), (d2, d1)]):
+        d = {"pop": TARGET + 1 + k, "tmarks": [], "policy": [], "cut": []}
+        r = rng.random()
+        if blocked and r < 0.9:
+            _mark(rng, d, rng.choice(sorted(blocked)))
+        for v in outside + sorted(blocked):
+            if v not in d["tmarks"] + d["policy"] and rng.random() < 0.3:
+                _mark(rng, d, v)
+        for key in ("tmarks", "policy", "cut"):
+            d[key] = sorted(d[key])
+        doms.append(d)
+    if rng.random() < 0.5:
+        doms.reverse()
+        for k, d in enumerate(doms):
+            d["pop"] = TARGET + 1 + k
+    if rng.random() < 0.08:
+        doms.append({"pop": TARGET, "tmarks": [], "policy": [], "cut": []})
+    return _u(g, doms, ev, rng.randrange(1 << 30), topo_seed=rng.randrange(1 << 30), stream="two_domain")
+
+
+def _redundant_case(rng):
+    """single-world events that SIMPLIFY changes: an item listed twice, a valueless copy of a valued variable, a subscript
+    that is not an ancestor of its variable (so the summation range, the returned event and the value bookkeeping must be
+    computed from the simplified event)"""
+    while True:
+        c = _single_world_case(rng) if rng.random() < 0.5 else _two_domain_case(rng)
+        if c["kind"] == "uncond":
+            break
+    g, ev = c["g"], c["event"]
+    nodes = G.all_nodes(g)
+    di = [tuple(e) for e in g["di"]]
+    for _ in range(rng.choice([1, 1, 2])):
+        j = rng.randrange(len(ev))
+        item = json.loads(json.dumps(ev[j]))
+        r = rng.random()
+        if r < 0.3:
+            ev.insert(rng.randrange(len(ev) + 1), item)                       # repeated item
+        elif r < 0.5:
+            item[2] = "n"
+            ev.insert(rng.randrange(len(ev) + 1), item)                       # valueless copy
+        else:
+            used = {int(z) for z, _ in item[4]} | {int(item[1])}
+            red = [v for v in nodes if v not in used and v not in FE.ancestors(di, {int(item[1])})]
+            if red:
+                ev[j][4] = sorted(ev[j][4] + [[rng.choice(red), rng.choice("mp")]])   # causally irrelevant subscript
+            else:
+                ev.insert(rng.randrange(len(ev) + 1), item)
+    c["stream"] = "redundant"
+    return c
+
+
+def _incons_case(rng):
+    """queries with an INCONSISTENT ctf-factor (Definition 4.1: A = a next to C_{a'}, or C_{a} next to C'_{a'}, in one
+    district of the ancestral graph) over unmarked or harmlessly marked domains: line 3 of Algorithm 2 has to answer FAIL;
+    a procedure that skips the test returns a number that is no probability of the query"""
+    while True:
+        n = rng.choice([2, 3, 3, 4])
+        lab = rng.sample(range(5), n)
+        a, c1 = lab[0], lab[1]
+        di, bi = [[a, c1]], []
+        two = n >= 3 and rng.random() < 0.5
+        if two:                                   # part (ii): C_{a} and C'_{a'}, C <-> C'
+            c2 = lab[2]
+            di.append([a, c2])
+            bi.append([c1, c2])
+            ev = [cv(c1, rng.choice("mp"), [(a, "m")]), cv(c2, rng.choice("mp"), [(a, "p")])]
+        else:                                     # part (i): A = a and C_{a'}, A <-> C
+            bi.append([a, c1])
+            s_ = rng.choice("mp")
+            ev = [cv(c1, rng.choice("mp"), [(a, s_)]), cv(a, "p" if s_ == "m" else "m")]
+        for z in lab[(3 if two else 2):]:
+            r = rng.random()
+            if r < 0.4:
+                di.append([z, rng.choice([a, c1])])
+            elif r < 0.7:
+                di.append([rng.choice([a, c1]), z])
+            else:
+                bi.append([z, c1])
+        g = {"nodes": [], "di": di, "bi": bi}
+        rng.shuffle(ev)
+        names, _ds = _event_factors(g, ev)
+        outside = [v for v in G.all_nodes(g) if v not in names]
+        doms = []
+        for k in range(rng.choice([1, 2])):
+            d = {"pop": TARGET + 1 + k, "tmarks": [], "policy": [], "cut": []}
+            for v in outside:
+                if rng.random() < 0.4:
+                    _mark(rng, d, v)
+            doms.append(d)
+        c = _u(g, doms, ev, rng.randrange(1 << 30), topo_seed=rng.randrange(1 << 30), stream="incons")
+        if _inconsistent_factor(c):
+            return c
+
+
 MALFORMED = ["empty_event", "all_none", "outside", "no_domains", "bad_topo", "policy_outside", "tnode_in_target",
              "cyclic_target", "extra_vertex", "star_none_cond", "target_tag_other_graph", "overlap_cond"]
 
@@ -293,7 +509,12 @@ def _rand_malformed(rng):
                c["eval_seed"], malformed=kind)
         c["outcomes"][0][2] = "n"
     elif kind == "outside":
-        c[key] = c[key] + [cv(93, "m")]
+        if c["kind"] == "cond" and rng.random() < 0.5:
+            c["conditions"] = c["conditions"] + [cv(93, "m")]     # third round: the validator checks the conditions separately
+        else:
+            c[key] = c[key] + [cv(93, "m")]
+    elif kind == "bad_topo" and rng.random() < 0.35:
+        c["mal_variant"] = "topo_missing"          # the order of domain 0 lacks a vertex (check 14), see _build
     elif kind == "no_domains":
         c["domains"] = []
     elif kind == "policy_outside":
@@ -326,6 +547,12 @@ def cases(rng: random.Random, tier: str):
         out.append(_single_world_case(rng))
     for _ in range(n_sw // 10):
         out.append(_dropped_bi_case(rng))
+    for _ in range(n_sw // 2):
+        out.append(_two_domain_case(rng))
+    for _ in range(n_sw // 5):
+        out.append(_redundant_case(rng))
+    for _ in range(n_sw // 8):
+        out.append(_incons_case(rng))
     for _ in range(n_rand):
         out.append(_rand_case(rng, 5 if rng.random() < 0.3 else 4))
     for _ in range(n_mal):
@@ -398,7 +625,12 @@ def _build(case):
             d = dict(d, pop=TARGET, tmarks=[G.all_nodes(g)[0]])
             gd = domain_graph_dict(g, d)
         graph = G.to_nx_mixed(gd)
-        order = [Variable(G.vname(v)) for v in _topo(gd, case.get("topo_seed", 1) + k, bad=(mal == "bad_topo" and k == 0))]
+        missing = mal == "bad_topo" and k == 0 and case.get("mal_variant") == "topo_missing"
+        order = [Variable(G.vname(v)) for v in _topo(gd, case.get("topo_seed", 1) + k,
+                                                     bad=(mal == "bad_topo" and k == 0 and not missing))]
+        if missing and len(order) >= 2:     # never an EMPTY order: the public wrapper replaces it by the graph's own sort
+            drop = G.vname(gd["di"][0][1]) if gd["di"] else order[-1].name
+            order = [v for v in order if v.name != drop]
         regular = [Variable(G.vname(v)) for v in sorted(G.all_nodes(gd)) if v < 200]
         domains.append(CFTDomain(graph=graph, population=PP[Variable(G.vname(d["pop"]))](regular),
                                  policy_variables={Variable(G.vname(v)) for v in d["policy"]}, ordering=order))
@@ -446,6 +678,29 @@ def _candidate_bindings(ret_event, nodes, sigma, sigma2):
     return cand, free
 
 
+def _visible(fam, seed):
+    """make the source domains differ VISIBLY from the target: `Family` draws a fresh kernel at every marked variable,
+    but with denominator 4 a fresh row of a binary variable repeats the target's row one time in three (a root variable
+    has a single row), and a wrong choice of domain would then go unnoticed on this family.  Every row of a marked
+    variable's kernel that has the target's shape is redrawn until it differs from the target's row (still a member of
+    the compatible family: a domain may have ANY mechanism at a marked variable).  Called before any joint is cached."""
+    rng = random.Random(seed * 7 + 3)
+    for pop in sorted(fam.kern):
+        if pop == TARGET:
+            continue
+        for v in fam.nodes:
+            k, kt = fam.kern[pop][v], fam.kern[TARGET][v]
+            if k is kt or k.shape != kt.shape or fam.struct[pop][v] != fam.struct[TARGET][v]:
+                continue
+            k = k.copy()
+            for key in itt.product(*[range(n) for n in k.shape[1:]]):
+                idx = (slice(None),) + key
+                while list(k[idx]) == list(kt[idx]):
+                    k[idx] = FE._weights(rng, k.shape[0], fam.DEN)
+            fam.kern[pop][v] = k
+    return fam
+
+
 def _value_check(case, enc_expr_, ret_event, queried, cond=None):
     """(v): exists a reading of the returned event under which the expression equals P*(queried [| cond])"""
     g = case["g"]
@@ -453,8 +708,8 @@ def _value_check(case, enc_expr_, ret_event, queried, cond=None):
     doms = case["domains"]
     marks = {d["pop"]: set(d["tmarks"]) | set(d["policy"]) for d in doms if d["pop"] != TARGET}
     cut = {d["pop"]: set(d["cut"]) for d in doms if d["pop"] != TARGET}
-    fam = FE.Family({"nodes": nodes, "di": g["di"], "bi": g["bi"]}, marks, random.Random(case["eval_seed"]), cut=cut, den=4,
-                    tri_latents=False)
+    fam = _visible(FE.Family({"nodes": nodes, "di": g["di"], "bi": g["bi"]}, marks, random.Random(case["eval_seed"]), cut=cut,
+                             den=4, tri_latents=False), case["eval_seed"])
     ft = FE.FunctionalTarget(fam)
     try:
         arr = fam.ev(enc_expr_)
@@ -478,19 +733,65 @@ def _value_check(case, enc_expr_, ret_event, queried, cond=None):
                 continue
             truth = truth / pc
         cand, free = _candidate_bindings(ret_event, nodes, sigma, sigma2)
+        qsub = _query_subscript_values(list(queried) + list(cond or []), sigma, sigma2)
         free_names = FE.free_names(enc_expr_)
-        choices = []
+        choices, unbound = [], []
         for v in nodes:
             if v not in free_names:
                 choices.append([0])
             elif cand[v]:
                 choices.append(sorted(cand[v]))
+            elif qsub.get(v):
+                choices.append(sorted(qsub[v]))  # a literal subscript of the query that the returned event does not repeat
             else:
-                choices.append([0, 1])          # unconstrained free variable: every value is tried
-        vals = [arr[pos] for pos in itt.product(*choices)]
-        if not any(x == truth for x in vals):
+                choices.append([None])           # bound by nothing: the value must be right whatever this variable is
+                unbound.append(v)
+        readings = []                            # one list of values (over the unbound names) per reading
+        for pos in itt.product(*choices):
+            alts = itt.product(*[[0, 1] if p is None else [p] for p in pos])
+            readings.append([arr[q] for q in alts])
+        if not any(all(x == truth for x in vals) for vals in readings):
+            got = sorted({str(x) for vals in readings for x in vals})
+            if any(x == truth for vals in readings for x in vals):
+                return ("value differs from the target probability: it is right only for particular values of "
+                        f"{unbound}, which the returned event does not bind (and the query does not intervene on): expected "
+                        f"{truth}, got {got} (base values {sigma})")
             return ("value differs from the target probability under every reading of the returned event: expected "
-                    f"{truth}, got {sorted(set(map(str, vals)))} (base values {sigma})")
+                    f"{truth}, got {got} (base values {sigma})")
+    return None
+
+
+def _query_subscript_values(vars_enc, sigma, sigma2):
+    """name -> values the QUERY gives it as a subscript (literal interventions)"""
+    out = {}
+    for v in vars_enc:
+        for z, s in v[4]:
+            out.setdefault(int(z), set()).add((sigma2 if s == "p" else sigma)[int(z)])
+    return out
+
+
+def _own_simplified(case):
+    """SIMPLIFY of the queried event by the harness's own graph code (Correa et al. 2022, Algorithm 1, for events without
+    a self-intervened variable and without a variable that has two values in one world): every variable in minimal form,
+    repeated items merged, a valueless copy absorbed by a valued one.  Set of (name, minimal subscripts, star)."""
+    di = [tuple(e) for e in case["g"]["di"]]
+    grp = {}
+    for v in case["event"]:
+        name, S = _min_var(di, v)
+        grp.setdefault((name, S), set()).add(v[2])
+    return {(n, S, st) for (n, S), sts in grp.items() for st in (sts - {"n"} or sts)}
+
+
+def _event_check(case, ret_event):
+    """(e): the returned event of ctfTRu is the simplified query event"""
+    own = _own_simplified(case)
+    got = [(int(v[1]), frozenset((int(z), s) for z, s in v[4]), v[2]) for v in ret_event]
+    if len(set(got)) != len(got):
+        return f"returned event is not simplified: it repeats an item: {E.to_str_tree(ret_event)}"
+    if set(got) != own:
+        show = lambda xs: sorted((n, sorted(S), st) for n, S, st in xs)  # noqa: E731
+        return (f"returned event is not the simplified event of the query (minimal subscripts, no repeated item): expected "
+                f"{show(own)}, got {show(got)}")
     return None
 
 
@@ -519,8 +820,8 @@ def _family(case):
     doms = case["domains"]
     marks = {d["pop"]: set(d["tmarks"]) | set(d["policy"]) for d in doms if d["pop"] != TARGET}
     cut = {d["pop"]: set(d["cut"]) for d in doms if d["pop"] != TARGET}
-    return FE.Family({"nodes": nodes, "di": g["di"], "bi": g["bi"]}, marks, random.Random(case["eval_seed"]), cut=cut, den=4,
-                     tri_latents=False)
+    return _visible(FE.Family({"nodes": nodes, "di": g["di"], "bi": g["bi"]}, marks, random.Random(case["eval_seed"]), cut=cut,
+                              den=4, tri_latents=False), case["eval_seed"])
 
 
 def _digest(case, enc):
@@ -531,6 +832,10 @@ def _digest(case, enc):
         return hashlib.sha1(" ".join(str(x) for x in arr.reshape(-1)).encode()).hexdigest()[:16]
     except FE.EvalError as e:
         return "evalerr:" + str(e)[:50]
+
+
+def _has_reflexive(vars_enc):
+    return any(any(int(z) == int(v[1]) for z, _ in v[4]) for v in vars_enc)
 
 
 def _in_quantifier(case):
@@ -593,6 +898,8 @@ def run_python(case):
             fail = f"validation raises {vclass} but the procedure answered"
         if vclass.startswith("other:"):
             tags["validator_crash"] = vclass
+            fail = (f"the validator itself raised {vclass[6:]} (only TypeError / ValueError / NotImplementedError reject an "
+                    "input)")
     elif exc is not None:
         tb = traceback.extract_tb(exc.__traceback__)
         where = next((f"{f.name}:{f.lineno}" for f in reversed(tb) if "/y0/" in f.filename), "?")
@@ -618,6 +925,11 @@ def run_python(case):
                 fail = "non-zero expression returned without an event"
             else:
                 fail = _value_check(case, enc, ret_event, queried, cond)
+                if kind == "uncond":
+                    # verdict of the value clause alone, for the theorem/oracle tie (see _Out.__eq__)
+                    out.append("value_bad" if fail else "value_ok")
+                if fail is None and kind == "uncond" and not _has_reflexive(queried):
+                    fail = _event_check(case, ret_event)
     if "malformed" in case and vclass is None and fail is None and case["malformed"] not in ("overlap_cond", "target_tag_other_graph"):
         # the malformed stream is meant to be rejected; an accepted one is only recorded (the validators define validity)
         tags["malformed_accepted"] = case["malformed"]
@@ -632,8 +944,8 @@ MODEL_READY = True
 
 
 def request(case):
-    """the model decides the validators (error class) and, for accepted inputs, nothing more is compared here: the
-    expression-valued part of Algorithms 2/3 is parametric in the `ctf`/`tian` families' models"""
+    """the model decides the complete procedure: validator verdict (error category), and for accepted inputs FAIL /
+    Zero / the expression and the returned event of Algorithm 2 (`transport ctf_uncond`) resp. Algorithm 3 (`ctftr cond`)"""
     if not MODEL_READY:
         return None
     mal = case.get("malformed")
@@ -651,8 +963,9 @@ def request(case):
         doms.append([d["pop"], C.graph_sexp(G.all_nodes(gd), gd["di"], gd["bi"]), _topo(gd, case.get("topo_seed", 1) + k),
                      d["policy"]])
     if case["kind"] == "uncond":
-        return C.enc(["transport", "ctf_uncond", gs, doms, case["event"]])
-    return C.enc(["transport", "ctf_validate_c", gs, doms, case["outcomes"], case["conditions"]])
+        # (ok <in the class of Props/C09Sound ctfTRu_sound_partial> <answer of ctfTRu>)
+        return C.enc(["ctftr", "uncond", gs, doms, case["event"]])
+    return C.enc(["ctftr", "cond", gs, doms, case["outcomes"], case["conditions"]])
 
 
 class _Out(list):
@@ -676,6 +989,14 @@ class _Out(list):
         if not ev_ok:
             _Out.stats["mismatch"] += 1
             return False
+        if len(self) > 4 and self[4] == "in_class":
+            # THEOREM / ORACLE TIE: the model says the input satisfies the decidable hypotheses of the proved value clause
+            # (ctfTRu_sound_partial: every item valued, no self-intervened variable, ctfSoundClass, a reading exists); then the exact oracle must have accepted the value, whatever known-finding class
+            # the input's signature falls in.  A contradiction is reported as a disagreement with this concrete input.
+            _Out.stats["in_theorem_class"] = _Out.stats.get("in_theorem_class", 0) + 1
+            if len(other) > 4 and other[4] == "value_bad":
+                _Out.stats["theorem_contradicted"] = _Out.stats.get("theorem_contradicted", 0) + 1
+                return False
         if self[2] == other[2]:
             _Out.stats["structural"] += 1
             return True
@@ -693,13 +1014,26 @@ class _Out(list):
 
 def canon_model(case, rep):
     if case["kind"] == "cond":
-        return _Out(["valid-only", "invalid" if (rep[0] == "err" and rep[1] == "invalid") else "accepted"])
+        # (ok <order-sensitive> <answer>): the answer of the complete Algorithm 3
+        order_sensitive, rep = rep[1] == "true", rep[2]
+        if order_sensitive:
+            # the verdict of Algorithm 3's final checks depends on which of two entries of a Python dict comprehension
+            # over a set-ordered list wins (CtfTr.finalChecksOrderSensitive): only the validator's verdict is compared
+            _Out.stats["order_sensitive"] = _Out.stats.get("order_sensitive", 0) + 1
+            return _Out(["valid-only", "invalid" if (rep[0] == "err" and rep[1] == "invalid") else "accepted"])
+    in_class = None
+    if case["kind"] == "uncond":
+        # (ok <in-class> <answer>): `CtfTr.ctfTRuInClass` = the decidable hypotheses of the value theorem of Algorithm 2
+        in_class, rep = rep[1] == "true", rep[2]
     if rep[0] == "err":
         return _Out(["err", "invalid" if rep[1] == "invalid" else "internal"])
     if rep[0] == "fail":
         return _Out(["fail"])
     enc, ev = rep[1], rep[2]
-    return _Out(["ok", _digest(case, enc), E.to_str_tree(enc), "none" if ev == "none" else sorted(E.to_str_tree(ev), key=json.dumps)])
+    out = _Out(["ok", _digest(case, enc), E.to_str_tree(enc), "none" if ev == "none" else sorted(E.to_str_tree(ev), key=json.dumps)])
+    if in_class is not None:
+        out.append("in_class" if in_class else "out_class")
+    return out
 
 
 def _key_class(case, res):
@@ -789,6 +1123,35 @@ def _ctf_ancestors(di, W, S):
     return {(A, frozenset((z, s_) for z, s_ in S if z != A and z in FE.ancestors(di, {A}, removed_in=names))) for A in an}
 
 
+def _inconsistent_factor(case):
+    """ctfTRu: Definition 4.1 of Correa et al. 2022 on the literal values of the query, with the harness's own graph code:
+    some ctf-factor (the ancestors W* of the minimised event in ctf-factor form, grouped by the districts of G[An]) holds
+    (i) an event variable A = a together with a variable C_{..A = a'..}, a' != a, or (ii) two variables C_{..A = a..},
+    C'_{..A = a'..}, a != a'.  Line 3 of Algorithm 2 answers FAIL on such a query, so an ANSWER with a wrong value is not a
+    manifestation of the open `two_values` finding (whose inputs carry the two values in DIFFERENT ctf-factors)."""
+    g = case["g"]
+    di = [tuple(e) for e in g["di"]]
+    bi = [tuple(e) for e in g["bi"]]
+    mins = [_min_var(di, v) + (v[2],) for v in (case.get("event") or [])]
+    anc = set()
+    for n, S, _ in mins:
+        anc |= _ctf_ancestors(di, n, S)
+    names = {a for a, _ in anc}
+    dist = {}
+    for d in FE.districts(sorted(names), [e for e in bi if e[0] in names and e[1] in names]):
+        for v in d:
+            dist[v] = d
+    # the literal value (A, s) sits, in ctf-factor form, on the ancestors C of the event variable that are children of A
+    lit = [(Cn, A, s_) for Cn, SC in anc for A, s_ in SC if (A, Cn) in di]
+    val = [(n, star) for n, _S, star in mins if star != "n"]
+    for Cn, A, s_ in lit:
+        if any(n == A and star != s_ and A in dist and dist[A] == dist[Cn] for n, star in val):
+            return True
+        if any(A2 == A and s2 != s_ and dist[C2] == dist[Cn] for C2, A2, s2 in lit):
+            return True
+    return False
+
+
 def signature(case):
     """syntactic features of the query, computed with the harness's own graph code on the MINIMISED query (a subscript that
     is not an ancestor of its variable is dropped first), that the known (inherited, not small) defects depend on:
@@ -847,7 +1210,10 @@ def signature(case):
             # SIMPLIFY's TypeError needs a self-intervened Y_y TOGETHER WITH a valueless variable of the same name
             # (Lean: CtfTr.SimplifyRisk, `simplify_no_error_outside_risk`)
             "simplify_risk": any(v[2] == "n" and int(v[1]) in refl_names for v in vars_),
-            "domain_drops_bi": any(d.get("drop_bi") for d in case["domains"])}
+            "domain_drops_bi": any(d.get("drop_bi") for d in case["domains"]),
+            # third round (narrows the value:two_values / multi_world / literal_bound classes of ctfTRu): Algorithm 2 must
+            # refuse a query with an inconsistent ctf-factor, so a wrong ANSWER there is a different defect
+            "inconsistent_factor": case["kind"] == "uncond" and not reflexive and _inconsistent_factor(case)}
 
 
 _CRASH = "after the procedure's own validation accepted"
@@ -885,7 +1251,7 @@ def finding_key(case, res):
             cls = "zero:multi_world"
     elif fail.startswith("value differs"):
         for k in ("reflexive", "two_values", "multi_world", "literal_bound"):
-            if sig[k]:
+            if sig[k] and not sig["inconsistent_factor"]:
                 cls = "value:" + k
                 break
         if cls is None and kind == "cond" and miss:
@@ -902,24 +1268,28 @@ def finding_key(case, res):
 MANIFEST = {
     "text": ("Partial. Lean theorems about the model Y0.Model.CtfTr of api.py (validators of ctfTRu / ctfTR as decision "
              "functions, Algorithm 4, Algorithm 2 composed from the `ctf` family's models of SIMPLIFY / counterfactual "
-             "ancestors / ctf-factors and the `tian` family's model of IDENTIFY; Algorithm 3 with its bookkeeping steps as "
-             "parameters), 31 theorems in Props/C09: the validators reject with the documented classes only and an accepted "
+             "ancestors / ancestral components / ctf-factors and the `tian` family's model of IDENTIFY; Algorithm 3 complete: "
+             "derivation of D*, Algorithm 2 on it, line 4 and the five final checks), 51 theorems in Props/C09 + Props/C09Sound (ctfTRu_correct_partial states the three clauses for Algorithm 2 together): THE VALUE CLAUSE FOR ALGORITHM 2 IS PROVED (ctfTRu_sound_partial): whenever ctfTRu answers (x, ev) for a validated input without a self-intervened variable whose simplified event has no valueless item and lies in the decidable class ctfSoundClass, then in every family of functional SCMs compatible with the target graph and the declared domains, at every valuation carrying the returned event's values, x evaluated on the declared domain distributions equals the target probability of the queried event - composed, with no link left as a hypothesis, from C19 (SIMPLIFY preserves the probability; the ctf-factor factorisation, here as a sum of products of c-factors: ctf_factorisation_cfactors), the syntactic link between line 2 of Algorithm 2 and the factorisation, C17 (IDENTIFY, c-factor routines) through sigmaTR_sound_family (Algorithm 4 returns Q*[district] of the TARGET model) and the transportability lemma cfactor_transportability (no selection node into the district and no policy variable in it => same c-factor in source and target), with a concrete two-domain family as non-vacuity witness; ctfTRu_sound_free_partial / ctfTRu_sound_fun cover valueless items read as free variables; ctfTR_sound_of_parts reduces the value clause of Algorithm 3 to two named marginalisation-and-independence identities. the validators reject with the documented classes only and an accepted "
              "input has the stated shape (validateU_error_class, validateC_error_class, validateU_accepts, validateC_strict); "
              "an 'invalid input' outcome is exactly a rejection by the procedure's own validator and an accepted input is "
              "answered, refused, or ends in a non-validation error (ctfTRu_invalid_iff, ctfTRu_trichotomy, "
-             "ctfTR_trichotomy); Zero() is returned exactly when SIMPLIFY finds the event inconsistent, and then - for events "
+             "ctfTR_invalid_iff, ctfTR_trichotomy); an answer of Algorithm 3 is Fraction(Sum.safe(Q, A), Sum.safe(Q, B)) with "
+             "A a subset of B, its event is the outcomes plus a sub-list of the conditions with the query's values, and Zero() "
+             "comes only from SIMPLIFY on D* (ctfTR_answer_shape, ctfTR_event_shape, ctfTR_zero_only_from_simplify); Zero() is returned exactly when SIMPLIFY finds the event inconsistent, and then - for events "
              "without a self-intervened variable - the event has probability 0 in every compatible functional SCM "
              "(ctfTRu_zero_only_from_simplify, ctfTRu_zero_of_simplify, ctf_zero_sound_partial via C19); the returned event is "
              "SIMPLIFY's output and every ctf-factor is transported from a domain with no policy variable and no selection "
              "node on its district (ctfTRu_event_is_simplified, sigmaTR_uses_usable_domain, transportFactors_all); outside the "
              "known crash classes the unconditional procedure never raises (ctfTRu_no_internal_error_partial with "
-             "simplify_no_error_outside_risk, line2_total, sigmaTRDomain_no_error, transportFactors_no_error), and an "
+             "simplify_no_error_outside_risk, line2_total, sigmaTRDomain_no_error, transportFactors_no_error), the conditional procedure never raises outside its "
+             "crash classes (ctfTR_no_internal_error_partial: outcomes found in the ancestral components under their own name, "
+             "one world in D*, no outcome that is also a condition; with ctfTR_q_good: the expression Q of Algorithm 2 is never "
+             "Zero() and mentions only graph vertices and variables of the domain distributions), and an "
              "expression returned by Algorithm 4 denotes Q[district] of the domain's model (sigmaTR_sound, via C17 "
              "cfactor_sound / tian_sound). NOT "
-             "proved, and FALSE of the current code on the inputs of the 17 open findings (known_findings.jsonl, class keys "
-             "with minimal witnesses): the value clause (ctfTRu_sound / ctfTR_sound) and the absence of non-validation errors "
-             "(ctf_no_internal_error in full: Algorithm 3, and the four crash classes). These clauses are decided on every run by the correspondence (validators exact; "
-             "Algorithm 2: verdict, simplified event and exact value of the expression) and by the exact functional-SCM "
+             "proved: the value clause outside ctfSoundClass (FALSE of the current code on the inputs of the open findings value:*), the value clause of Algorithm 3 (ctfTR_sound: reduced to two named identities; false on the findings cond:value:outcome-*), and the absence of non-validation errors in full "
+             "(ctf_no_internal_error: false on the crash classes of the findings, open on two further input classes of Algorithm 3). These clauses are decided on every run by the correspondence (validators exact; "
+             "Algorithms 2 and 3: verdict, returned event and exact value of the expression) and by the exact functional-SCM "
              "oracle (noise-space enumeration of P*(event), policies as fresh mechanisms): trichotomy, zero-soundness and "
              "value on every answered case."),
     "note": ("Trusted: Lean kernel; axioms propext/Classical.choice/Quot.sound; the hand-written models (this family's CtfTr, "
@@ -931,6 +1301,8 @@ MANIFEST = {
              "looked up under a non-stored name) together with the finding's kind of outcome (wrong value / wrong zero / the "
              "exception class at the named check) are attributed to that finding; any other "
              "failing input is reported as a violation with its exact replay."),
-    "technique": ("Lean 4 theorems on validator decision functions and on the algorithm skeleton (composition with C19 and C17 "
-                  "models) + differential correspondence + exact functional-SCM oracle (trichotomy, zero-soundness, value)"),
+    "technique": ("Lean 4 theorems on validator decision functions, on the algorithm skeleton and on the VALUE of the answer of "
+                  "Algorithm 2 over families of functional SCMs (composition with C19 and C17) + differential correspondence with the "
+                  "complete models of Algorithms 2-4 + exact functional-SCM oracle (trichotomy, zero-soundness, value, returned event), "
+                  "theorem and oracle tied on every in-class case"),
 }
